@@ -200,7 +200,7 @@ Definition run_parser (ports : list portreg) (p : parser) (base : bool) (m : msg
       if Nat.ltb len 4 then stop m else
       let m1 := add_layer m p in
       let et := be (sub d 2 4) in
-      let m2 := if base then msetI (msetI m1 cVlanId (be (sub d 0 2) mod 4096)) cEtype et else m1 in
+      let m2 := if base then msetI (msetI m1 cVlanId (be (sub d 0 2))) cEtype et else m1 in
       Ok (m2, 4, next_etype et)
   | PMPLS =>
       if Nat.ltb len 4 then stop m else
